@@ -104,6 +104,11 @@ def oracle(line, impl_line):
         last = ev
         if ev["kind"] == "next" and ev["ok"] and ev["done"]:
             got.append(ev["req"])
+        elif ev["kind"] == "next":
+            return ("the hand-off to the next request failed on compliant traffic (%s): bytes were lost, duplicated or "
+                    "reordered across the conversion" % (ev.get("code") or "request not completed"))
+        elif ev["kind"] == "panic":
+            return "panic during the conversion chain"
     for g, e in zip(got, exp[1:]):
         if g != e[:4]:
             return "request %s after a hand-off differs from what was sent (%s)" % (g[:3], e[:3])
